@@ -555,7 +555,7 @@ func checkC15(c *Check) {
 // error. The return rule of C16.R3 (lockset analysis: no return while a mutex is held without a deferred
 // unlock) is evaluated here and filed under C15.R6.
 func c15Locks(c *Check) {
-	c.Rule("C15.R6", "no check hangs on a lock left behind: no own function returns while holding a mutex it acquired unless the unlock is deferred (the lockset rule of C16.R3) — an error return inside a critical section would block every later check for ever.", 1)
+	c.Rule("C15.R6", "no check hangs on a lock or gate left behind: no own function returns while holding a mutex it acquired unless the unlock is deferred (the lockset rule of C16.R3) — an error return inside a critical section would block every later check for ever; a start gate that request-path code waits on is closed before its owner blocks.", 1)
 	tc := NewCheck("C16", c.Tier, c.VerifDir, c.P)
 	func() {
 		defer func() {
@@ -573,6 +573,14 @@ func c15Locks(c *Check) {
 		if o.Status == "violated" && strings.Contains(o.Key, "return while holding") {
 			c.Fail("C15.R6", strings.TrimPrefix(o.Key, "C16.R3/"), o.Where, o.Why+": every later check that needs this lock blocks for ever")
 			n++
+		}
+		if strings.Contains(o.Key, "/gate-opened-before-blocking/") {
+			if o.Status == "violated" {
+				c.Fail("C15.R6", strings.TrimPrefix(o.Key, "C16.R3/"), o.Where, o.Why)
+				n++
+			} else {
+				c.Pass("C15.R6", strings.TrimPrefix(o.Key, "C16.R3/"), o.Where, o.Why)
+			}
 		}
 		if strings.HasSuffix(o.Key, "/locked-regions") {
 			if o.Status == "violated" {
